@@ -749,7 +749,7 @@ class URL:
             else:
                 _add(self.host)
             # TODO: 0 port?
-            if self.port and self.port != self.default_port:
+            if self.port is not None and self.port != self.default_port:
                 _add(':')
                 _add(str(self.port))
         return ''.join(parts)
